@@ -254,6 +254,7 @@ WglResult wgl_check(const History& h, const Model& model, const typename Model::
 struct Args {
   std::string cfg = "all";
   bool weak = false;
+  bool tso = false;
   uint64_t seed = 1;
   uint64_t execs = 100;
   uint64_t from = 0;
@@ -280,8 +281,11 @@ inline Args parse_args(int argc, char** argv) {
     };
     if (k == "--cfg")
       a.cfg = val();
-    else if (k == "--mode")
-      a.weak = std::string(val()) == "weak";
+    else if (k == "--mode") {
+      std::string m = val();
+      a.weak = m == "weak" || m == "tso"; // both use happens-before precedence in the oracles
+      a.tso = m == "tso";
+    }
     else if (k == "--seed")
       a.seed = strtoull(val(), nullptr, 10);
     else if (k == "--execs")
@@ -314,15 +318,17 @@ inline Args parse_args(int argc, char** argv) {
 
 struct ExecCtx {
   uint64_t seed;
-  bool weak;
+  bool weak; // oracle flavour: happens-before precedence (weak and tso modes)
   uint32_t window;
   bool freeze;
   bool verbose;
   int strategy;
+  bool tso = false; // engine flavour: x86-TSO store buffers instead of view-based stale reads
   xrt::RunCfg runcfg(uint64_t salt = 0) const {
     xrt::RunCfg c;
     c.seed = mix64(seed, salt);
-    c.weak = weak;
+    c.weak = weak && !tso;
+    c.tso = tso;
     c.window = window;
     c.freeze = freeze;
     c.strategy = strategy;
@@ -438,7 +444,7 @@ inline int scenario_main(int argc, char** argv, const ScenarioDef& def) {
     const xrt::Stats before = xrt::stats();
     counters().c.clear();
     for (uint64_t i = args.from; i < args.from + args.execs; ++i) {
-      ExecCtx ctx{mix64(mix64(args.seed, cfg_salt), i), args.weak, args.window, args.freeze, args.verbose, args.strategy};
+      ExecCtx ctx{mix64(mix64(args.seed, cfg_salt), i), args.weak, args.window, args.freeze, args.verbose, args.strategy, args.tso};
       xrt::set_context(def.name, cfg.c_str(), args.seed, i);
       xrt::clear_violation();
       ExecOut out;
@@ -463,7 +469,7 @@ inline int scenario_main(int argc, char** argv, const ScenarioDef& def) {
         samples.push_back(out.history);
       if (args.only >= 0 && (uint64_t)args.only == i) {
         printf("---- replay of %s/%s seed=%" PRIu64 " exec=%" PRIu64 " mode=%s\n%s\n", def.name, cfg.c_str(), args.seed, i,
-               args.weak ? "weak" : "sc", out.history.c_str());
+               (args.tso ? "tso" : args.weak ? "weak" : "sc"), out.history.c_str());
         if (out.violation)
           printf("violation: %s/%s: %s\n", out.prop.c_str(), out.kind.c_str(), out.msg.c_str());
         else
@@ -475,7 +481,7 @@ inline int scenario_main(int argc, char** argv, const ScenarioDef& def) {
         printf("{\"violation\":true,\"scenario\":\"%s\",\"config\":\"%s\",\"mode\":\"%s\",\"prop\":\"%s\",\"kind\":\"%s\","
                "\"seed\":%" PRIu64 ",\"from\":%" PRIu64 ",\"exec\":%" PRIu64 ",\"window\":%u,\"freeze\":%s,\"msg\":\"%s\","
                "\"history\":\"%s\"}\n",
-               def.name, cfg.c_str(), args.weak ? "weak" : "sc", out.prop.c_str(), out.kind.c_str(), args.seed, args.from,
+               def.name, cfg.c_str(), (args.tso ? "tso" : args.weak ? "weak" : "sc"), out.prop.c_str(), out.kind.c_str(), args.seed, args.from,
                i, args.window, args.freeze ? "true" : "false", json_escape(out.msg).c_str(),
                json_escape(out.history).c_str());
         if (nviol >= args.max_viol)
@@ -483,6 +489,14 @@ inline int scenario_main(int argc, char** argv, const ScenarioDef& def) {
       }
     }
     const xrt::Stats& st = xrt::stats();
+    for (int k = 0; k < 128; ++k) {
+      uint32_t n = st.solo_count_by_kind[k] - before.solo_count_by_kind[k];
+      if (n) {
+        counters().add(fmt("solo_kind%d_episodes", k).c_str(), n);
+        counters().add(fmt("solo_kind%d_others_midop", k).c_str(), st.solo_midop_by_kind[k] - before.solo_midop_by_kind[k]);
+        counters().max(fmt("max_solo_kind%d_steps", k).c_str(), st.solo_max_by_kind[k]);
+      }
+    }
     std::string cj;
     for (auto& kv : counters().c)
       cj += fmt("%s\"%s\":%" PRIu64, cj.empty() ? "" : ",", kv.first.c_str(), kv.second);
@@ -500,7 +514,7 @@ inline int scenario_main(int argc, char** argv, const ScenarioDef& def) {
            ",\"solo_episodes\":%" PRIu64 ",\"solo_max_steps\":%" PRIu64 ",\"loc_overflow\":%" PRIu64
            ",\"diag_atomic_races\":%" PRIu64
            ",\"strategies\":[%" PRIu64 ",%" PRIu64 ",%" PRIu64 ",%" PRIu64 "],\"counters\":{%s},\"samples\":[%s]}\n",
-           def.name, cfg.c_str(), args.weak ? "weak" : "sc", args.seed, execs, nviol, inconclusive, hashes.size(),
+           def.name, cfg.c_str(), (args.tso ? "tso" : args.weak ? "weak" : "sc"), args.seed, execs, nviol, inconclusive, hashes.size(),
            nontrivial.size(), st.episodes - before.episodes, st.steps - before.steps, st.switches - before.switches,
            st.stale_reads - before.stale_reads, st.stale_sites, st.spurious_cas - before.spurious_cas,
            st.atomics - before.atomics, st.plains - before.plains, st.fences - before.fences,
